@@ -365,3 +365,36 @@ def run(ctx):
     # ---------------------------------------------------------------- C17.7
     from .c03 import c037
     c037(ctx, rid='C17.7')
+
+    # ---------------------------------------------------------------- C17.8
+    ctx.rule('C17.8', 'every write into a capped store is cut to the cap: in the shell tool\'s artifact capture (capture_stream, write_artifact_tail) and the task log writer (TaskLogWriter::append) the bytes handed to the file are a slice whose bound comes out of a min(..) — and, where the function reads the cap (artifact_max_bytes / max_bytes) itself, that min is computed from it. A write sized by what happens to be buffered (`preview.len()`) stores more than the configured cap whenever the preview limit exceeds it.')
+    n8 = 0
+    CAPF = re.compile(r'^(artifact_)?max_bytes$|^cap(acity)?_bytes$')
+    for p_, g in sorted(P.fns.items()):
+        if not (p_.startswith('rip_tools::builtins::shell::capture_stream') or p_.startswith('rip_tools::builtins::shell::write_artifact_tail') or p_.startswith('ripd::tasks::logs::TaskLogWriter::append')):
+            continue
+        ws_ = [s_ for s_ in g.sites() if re.search(r'AsyncWriteExt::(write_all|write)$|std::io::Write>::(write_all|write)$', s_.callee or '') and 'File' in ' '.join(s_.ga + [s_.full or ''])]
+        if not ws_:
+            continue
+        capl = set()
+        for b_ in g.blocks:
+            for st_ in b_['s']:
+                rv_ = st_.get('rv') or {}
+                for o_ in rv_.get('a', []) or []:
+                    pl_ = op_place(o_)
+                    if pl_ and any(isinstance(pp, dict) and CAPF.match(str(pp.get('n', ''))) for pp in pl_.get('p', [])) and not st_['d'].get('p'):
+                        capl.add(st_['d']['l'])
+        mins = g.calls(r'::min$')
+        for w_ in ws_:
+            n8 += 1
+            ctx.touch(g)
+            rl = set()
+            for a_ in w_.args[1:]:
+                rl |= reads_locals(g, a_)
+            via = [m_ for m_ in mins if m_.dest and m_.dest['l'] in rl]
+            capped = [m_ for m_ in via if not capl or any(reads_locals(g, a_) & capl for a_ in m_.args)]
+            ok8 = bool(capped)
+            ctx.ob('C17.8', g, 'write-cut-to-the-cap', ok8,
+                   'the slice written is bounded by min(..)%s' % (' over the cap' if capl else '') if ok8 else
+                   ('the slice written to the capped file is NOT bounded by a min over the cap (%s): more than the configured cap can be stored' % ('no min(..) in the provenance of its bounds' if not via else 'the min does not read the cap')), line=w_.line)
+    ctx.floor('C17.8', 'writes into capped stores', n8, 3)
